@@ -104,7 +104,11 @@ ObsOutBudget(o, ev, seq) ==
   ELSE IF ev.failed THEN o                           \* the token of a failed write is given back
   ELSE \* rate form, prefix windows: count <= burst + rate * elapsed
        LET c == o.count + 1 IN
-       IF c > o.cfg.burst + (o.cfg.rate * ev.ms) \div 1000 + 1
+       \* (golang.org/x/time/rate reads the clock before it takes its lock and moves its mark back when one call
+       \* overtakes another, so under load the limiter itself hands out a little more than burst + rate * t; the
+       \* budget that counts is the limiter's: 50 ms of such skew are tolerated here, the exact accounting of the
+       \* rate = 0 form is not affected)
+       IF c > o.cfg.burst + (o.cfg.rate * ev.ms) \div 1000 + 1 + (o.cfg.rate * 50) \div 1000
        THEN [o EXCEPT !.count = c, !.bad = @ \cup {Tag({"C20"}, "more rated datagrams than burst + rate * elapsed", seq)}]
        ELSE [o EXCEPT !.count = c]
 
